@@ -86,6 +86,30 @@ theorem C20_child_exits_bound (c : Cfg) (as : List Act) (s : State)
   simp [mu, init, crank, krank] at this
   omega
 
+/-! ## no bound on how far the child may get ahead
+
+The child-side queue buffer `cbuf` is unbounded in the model, as `multiprocessing.Queue()` without a
+`maxsize` is in the code: emitting never blocks and never drops.  (`QueueHandler` uses `put_nowait`:
+a bounded log queue would drop every record beyond its capacity — a correspondence break, and the
+`lost` monitor's business; the burst cases of `scen_log` put the child 13 000 – 150 000 records ahead.) -/
+
+/-- emitting is enabled whatever is outstanding, and appends exactly the record -/
+theorem C20_emit_never_blocks (c : Cfg) (s : State) (h1 : s.cpc = .emit) (h2 : s.emitted < c.n) :
+    step c s .emit = some { s with cbuf := s.cbuf ++ [s.emitted], emitted := s.emitted + 1 } := by
+  simp [step, h1, h2]
+
+/-- the child can get any number `k ≤ n` of records ahead of the parent: after `k` emissions and
+    nothing else all `k` records are outstanding in `cbuf`, in order -/
+theorem C20_ahead_unbounded (c : Cfg) (k : Nat) (hk : k ≤ c.n) :
+    Core.run (step c) init (List.replicate k .emit) = some { init with cbuf := List.range k, emitted := k } := by
+  induction k with
+  | zero => rfl
+  | succ k ih =>
+    rw [List.replicate_succ', Core.run_append, ih (by omega)]
+    simp only [Option.bind_some, Core.run_cons, Core.run_nil]
+    rw [C20_emit_never_blocks c _ rfl (by show k < c.n; omega)]
+    simp [List.range_succ]
+
 /-! ## non-vacuity -/
 
 /-- three records through a pipe that holds one, the middle one below the parent's level, the
